@@ -155,6 +155,7 @@ def asOp (j : Json) : R Op := do
   | "add" => pure (.add (← fld j "name" >>= asS) (← fld j "dtype" >>= asS) (← getList (asList asInt) j "vals")
       (← fld j "cal" >>= asOpt asCal))
   | "remove" => pure (.remove (← getList asS j "names"))
+  | "data_reorder" => pure (.dataReorder (← getList asS j "order"))
   | o => throw s!"bad operation {o}"
 
 def asStep (j : Json) : R Step := do
@@ -168,6 +169,22 @@ def asStep (j : Json) : R Step := do
 raises or is not modelled -/
 def applyPre (L : Laser) (ops : List Op) : Option Laser :=
   ops.foldlM (fun M o => (applyOp id M o).toOption) L
+
+/-- does a mutator call of the history raise or leave the model (states followed as `runHistory` does)? -/
+def opFails (ver time : Str) : List Step → Laser → Option Laser → Bool
+  | [], _, _ => false
+  | .op o :: r, cur, last =>
+    match applyOp id cur o with
+    | .ok c => opFails ver time r c last
+    | .error _ => true
+  | .save p :: r, cur, _ =>
+    match save id ver time cur >>= load id p with
+    | .ok l => opFails ver time r cur (some l)
+    | .error _ => false
+  | .adopt :: r, _, last =>
+    match last with
+    | some l => opFails ver time r l last
+    | none => true
 
 def preDetermined (L : Laser) (ops : List Op) : Bool :=
   stepsDetermined (ops.map Step.op) L none
@@ -254,6 +271,7 @@ def handle (op : String) (req : Json) : R Json := do
                   ("model", jList jRes (runHistory id ver time steps L none)),
                   ("spec", jList jRes (specHistory id ver steps L none)),
                   ("oks", jList (fun b => jBool (b && okv)) oks),
+                  ("op_failed", jBool (opFails ver time steps L none)),
                   ("determined", jBool (ctorDet && stepsDetermined steps L none))])
   | _ => throw s!"unknown op {op}"
 
